@@ -526,7 +526,7 @@ def family_finish(X, run, after_normal):
 
 
 def loop_ordinal(X, st, node):
-    return (st.locals.get("__func__"), node.lineno)
+    return (st.locals.get("%func"), node.lineno)
 
 
 def for_loop(X, st, node):
@@ -712,10 +712,13 @@ def comprehension(X, st, node, kind):
     if len(node.generators) != 1:
         raise Unsupported("nested comprehension")
     gen = node.generators[0]
-    if gen.ifs:
-        raise Unsupported("comprehension filter")
     out = []
     for r in X.ev(st, gen.iter):
+        if r.exc is None and isinstance(r.v, core.VOpq):
+            out.extend(_comprehension(X, r.st, node, gen, kind, r.v))
+            continue
+        if gen.ifs:
+            raise Unsupported("comprehension filter")
         if r.exc is not None:
             out.append(r)
             continue
@@ -729,6 +732,11 @@ def comprehension(X, st, node, kind):
 
 
 def _comprehension(X, st, node, gen, kind, itv):
+    if isinstance(itv, core.VOpq):
+        # a comprehension over an opaque python collection (e.g. code.co_names): an opaque collection that
+        # is a deterministic function of it
+        f = z3.Function(f"comprehension_l{node.lineno}", itv.t.sort(), core.Opq)
+        return [Res(st, core.VOpq(f(itv.t), "opaque-collection"))]
     desc = iter_desc(X, st, itv)
     saved = dict(st.locals)
     if kind == "dict":
